@@ -122,8 +122,10 @@ def run(case, drv) -> Outcome:
     else:
         mt = m['trace']
         # iterates in lockstep as long as both ran; counts compared only when the stopping decision is exact in floats
-        for (xi, ri, ki), e in zip(trace, mt):
-            if ki != e['k'] or not close(xi, to_t(e['x'])) or not close(ri, to_t(e['r']), 1e-6):
+        # (floating-point CG loses conjugacy gradually: iterate-by-iterate agreement with exact arithmetic is required for the
+        # first 8 iterations, with 1e-7 up to iteration 4 and 1e-5 after; later iterates are judged by the property-level oracle)
+        for (xi, ri, ki), e in zip(trace[:8], mt):
+            if ki != e['k'] or not close(xi, to_t(e['x']), 1e-7 if ki < 5 else 1e-5) or not close(ri, to_t(e['r']), 1e-6 if ki < 5 else 1e-4):
                 corr = corr or f'cg iterate {ki} differs from the exact model run ({case})'
         if exactish and len(trace) != len(mt):
             corr = corr or f'cg ran {len(trace)} iterations, model {len(mt)} ({m["reason"]}) for {case}'
